@@ -4,16 +4,17 @@ with witness/sort_witness.rs added as a test module and runs it.  Prints the WIT
 usage: bounded_sort.py [max_rules]"""
 import os, shutil, subprocess, sys, tempfile, re
 VERIF = os.path.dirname(os.path.dirname(os.path.abspath(__file__)))
+REPO = os.environ.get("RULER_REPO", "/repo")   # (the registered commands never set it: they work on /repo; tools/par_seeds.sh does)
 def main():
     max_rules = sys.argv[1] if len(sys.argv) > 1 else "4"
     scratch = tempfile.mkdtemp(prefix="ruler_sortwit_", dir=os.environ.get("TMPDIR", "/tmp"))
     try:
         for item in ("src", "Cargo.toml", "Cargo.lock"):
-            s = os.path.join("/repo", item); d = os.path.join(scratch, item)
+            s = os.path.join(REPO, item); d = os.path.join(scratch, item)
             if os.path.isdir(s): shutil.copytree(s, d)
             else: shutil.copy(s, d)
-        if os.path.isdir("/repo/target"):
-            subprocess.run(["cp", "-r", "/repo/target", os.path.join(scratch, "target")], check=False)
+        if os.path.isdir(os.path.join(REPO, "target")):
+            subprocess.run(["cp", "-r", os.path.join(REPO, "target"), os.path.join(scratch, "target")], check=False)
         shutil.copy(os.path.join(VERIF, "witness", "sort_witness.rs"), os.path.join(scratch, "src", "verif_sort_witness.rs"))
         mp = os.path.join(scratch, "src", "main.rs")
         with open(mp, "a") as f: f.write("\n#[cfg(test)]\nmod verif_sort_witness;\n")
